@@ -1,11 +1,30 @@
 #!/usr/bin/env python3
 """mklock.py — (re)write lib/obligations.lock.json from the theorems currently in lean/GcArena/Props.
-Run deliberately after adding property theorems; the checks treat a locked theorem that disappears
-as an open obligation."""
-import json, os, re
+
+Run deliberately after adding or changing property theorems.  The lock pins, per property,
+  * the NAMES of the theorems that make up the claim (a locked theorem that disappears is an open
+    obligation), and
+  * under "_stmt", WHAT each theorem says: a structural hash of its elaborated statement and of every
+    GcArena definition the statement transitively rests on (lean/GcArena/Audit/StmtHash.lean; proofs
+    and the source-derived Generated tables are excluded).  lib/vcheck.py recomputes the hash on every
+    run: a theorem that keeps its name but not its statement (an added hypothesis, a weakened
+    conclusion, a redefined `Safe`) no longer discharges the locked obligation.
+Every hash that changes for an already locked name is printed and appended to
+lib/obligations.lock.changes.log so that a re-acceptance is visible in the history.
+"""
+import json, os, re, subprocess, sys, time
 ROOT = os.path.dirname(os.path.dirname(os.path.abspath(__file__)))
-P = os.path.join(ROOT, "lean", "GcArena", "Props")
-lock = {}
+LEAN = os.path.join(ROOT, "lean")
+P = os.path.join(LEAN, "GcArena", "Props")
+LOCK = os.path.join(ROOT, "lib", "obligations.lock.json")
+WORK = os.path.join(ROOT, "work")
+os.makedirs(WORK, exist_ok=True)
+try:
+    old = json.load(open(LOCK))
+except Exception:
+    old = {}
+old_stmt = old.get("_stmt", {})
+lock, stmt, mods = {}, {}, []
 for f in sorted(os.listdir(P)):
     if not f.endswith(".lean"):
         continue
@@ -16,9 +35,36 @@ for f in sorted(os.listdir(P)):
     code = re.sub(r"--.*", "", code)
     ns = re.search(r"^namespace\s+(\S+)", code, flags=re.M)
     prefix = (ns.group(1) + ".") if ns else ""
-    names = re.findall(r"^theorem\s+([A-Za-z0-9_.']+)", code, flags=re.M)
+    names = [prefix + n for n in dict.fromkeys(re.findall(r"^theorem\s+([A-Za-z0-9_.']+)", code, flags=re.M))]
     lock.setdefault(prop, [])
-    for n in dict.fromkeys(names):
-        lock[prop].append(prefix + n)
-json.dump(lock, open(os.path.join(ROOT, "lib", "obligations.lock.json"), "w"), indent=1, sort_keys=True)
+    lock[prop] += names
+    mods.append((mod, names))
+subprocess.run(["lake", "build", "GcArena.Audit.StmtHash"] + [f"GcArena.Props.{m}" for m, _ in mods],
+               cwd=LEAN, stdout=subprocess.PIPE, stderr=subprocess.STDOUT, text=True)
+bad = []
+for mod, names in mods:
+    if not names:
+        continue
+    a = os.path.join(WORK, f"Lock_{mod}.lean")
+    open(a, "w").write(f"import GcArena.Audit.StmtHash\nimport GcArena.Props.{mod}\n#stmt_hash " + " ".join(names) + "\n")
+    r = subprocess.run(["lake", "env", "lean", a], cwd=LEAN, stdout=subprocess.PIPE, stderr=subprocess.STDOUT, text=True)
+    got = dict(re.findall(r"STMT (\S+) (\d+)", r.stdout))
+    for n in names:
+        if n in got:
+            stmt[n] = got[n]
+        else:
+            bad.append(n)
+            if n in old_stmt:            # keep the accepted hash: the module does not build right now
+                stmt[n] = old_stmt[n]
+changed = [(n, old_stmt[n], stmt[n]) for n in stmt if n in old_stmt and str(old_stmt[n]) != str(stmt[n])]
+lock["_stmt"] = stmt
+json.dump(lock, open(LOCK, "w"), indent=1, sort_keys=True)
 print({k: len(v) for k, v in lock.items()})
+if bad:
+    print(f"WARNING: no statement hash for {len(bad)} theorem(s) (module does not build?): {bad[:8]}")
+if changed:
+    with open(os.path.join(ROOT, "lib", "obligations.lock.changes.log"), "a") as f:
+        for n, o, w in changed:
+            line = f"{time.strftime('%Y-%m-%d %H:%M')} re-accepted {n}: statement hash {o} -> {w}"
+            print(line)
+            f.write(line + "\n")
